@@ -13,6 +13,8 @@ import (
 	"time"
 )
 
+var noPrune = os.Getenv("GOVC_NOPRUNE") != ""
+
 type Verdict struct {
 	Obl     *Obl
 	Status  string // proved, refuted, unknown
@@ -40,9 +42,165 @@ const preamble = `(set-option :produce-models true)
 (assert (forall ((s Str)) (! (bvult (strlen s) (_ bv140737488355328 64)) :pattern ((strlen s)))))
 `
 
+// symbolsOf extracts identifier-like tokens of an SMT-LIB fragment.
+func symbolsOf(t string) []string {
+	var out []string
+	i := 0
+	for i < len(t) {
+		ch := t[i]
+		if ch == '_' || ch >= 'a' && ch <= 'z' || ch >= 'A' && ch <= 'Z' {
+			j := i + 1
+			for j < len(t) {
+				c2 := t[j]
+				if c2 == '_' || c2 == '!' || c2 == '.' || c2 >= 'a' && c2 <= 'z' || c2 >= 'A' && c2 <= 'Z' || c2 >= '0' && c2 <= '9' {
+					j++
+				} else {
+					break
+				}
+			}
+			out = append(out, t[i:j])
+			i = j
+			continue
+		}
+		i++
+	}
+	return out
+}
+
+func isHubSymbol(s string) bool {
+	return strings.HasPrefix(s, "alloc!") || s == "null" || s == "inil" || s == "at" || s == "itag" || s == "strlen" || s == "strbyte"
+}
+
+// relevantItems: cone of influence of the goal.  An assertion is kept when it shares a declared, non-hub symbol
+// with the goal (transitively); definitions are followed.  Dropping assumptions is sound.
+func relevantItems(r *FuncResult, o *Obl) []bool {
+	n := o.Prefix
+	r.pruneMu.Lock()
+	defer r.pruneMu.Unlock()
+	if r.itemSyms == nil {
+		r.declared = map[string]int{}
+		r.itemSyms = make([][]string, len(r.Items))
+		for i, it := range r.Items {
+			if it.Name != "" && (it.Kind == "decl" || it.Kind == "def" || it.Kind == "declfun") {
+				r.declared[it.Name] = i
+			}
+		}
+		for i, it := range r.Items {
+			seen := map[string]bool{}
+			for _, sym := range symbolsOf(it.Body) {
+				if _, ok := r.declared[sym]; ok && !seen[sym] && !isHubSymbol(sym) {
+					seen[sym] = true
+					r.itemSyms[i] = append(r.itemSyms[i], sym)
+				}
+			}
+		}
+		r.symUsers = map[string][]int{}
+		for i, it := range r.Items {
+			if it.Kind == "assert" || it.Kind == "raw" {
+				for _, sym := range r.itemSyms[i] {
+					r.symUsers[sym] = append(r.symUsers[sym], i)
+				}
+			}
+		}
+	}
+	keep := make([]bool, n)
+	for i := 0; i < n; i++ {
+		// assertions over hub symbols only (allocation monotonicity, constants) are always kept
+		if (r.Items[i].Kind == "assert" || r.Items[i].Kind == "raw") && len(r.itemSyms[i]) == 0 {
+			keep[i] = true
+		}
+	}
+	rel := map[string]bool{}
+	var work []string
+	add := func(sym string) {
+		if !rel[sym] {
+			rel[sym] = true
+			work = append(work, sym)
+		}
+	}
+	for _, sym := range symbolsOf(o.Goal) {
+		if _, ok := r.declared[sym]; ok {
+			add(sym)
+		}
+	}
+	for len(work) > 0 {
+		sym := work[len(work)-1]
+		work = work[:len(work)-1]
+		if isHubSymbol(sym) {
+			continue
+		}
+		if di, ok := r.declared[sym]; ok && di < n {
+			keep[di] = true
+			if r.Items[di].Kind == "def" {
+				for _, s2 := range r.itemSyms[di] {
+					add(s2)
+				}
+				// hub symbols inside definitions still need their declarations
+				for _, s2 := range symbolsOf(r.Items[di].Body) {
+					if isHubSymbol(s2) {
+						if dj, ok := r.declared[s2]; ok && dj < n {
+							keep[dj] = true
+						}
+					}
+				}
+			}
+		}
+		for _, ai := range r.symUsers[sym] {
+			if ai < n && !keep[ai] {
+				keep[ai] = true
+				for _, s2 := range r.itemSyms[ai] {
+					add(s2)
+				}
+			}
+		}
+	}
+	// declarations of everything mentioned by kept items (including hub symbols)
+	for i := 0; i < n; i++ {
+		if !keep[i] {
+			continue
+		}
+		for _, sym := range symbolsOf(r.Items[i].Body) {
+			if dj, ok := r.declared[sym]; ok && dj < n {
+				keep[dj] = true
+			}
+		}
+	}
+	for _, sym := range symbolsOf(o.Goal) {
+		if dj, ok := r.declared[sym]; ok && dj < n {
+			keep[dj] = true
+		}
+	}
+	// closure for declarations pulled in late (definitions referencing other definitions)
+	changed := true
+	for changed {
+		changed = false
+		for i := 0; i < n; i++ {
+			if keep[i] && r.Items[i].Kind == "def" {
+				for _, sym := range symbolsOf(r.Items[i].Body) {
+					if dj, ok := r.declared[sym]; ok && dj < n && !keep[dj] {
+						keep[dj] = true
+						changed = true
+					}
+				}
+			}
+		}
+	}
+	// raw items (sort / datatype declarations, axioms about declared functions) are always kept when they declare something
+	for i := 0; i < n; i++ {
+		if r.Items[i].Kind == "raw" && (strings.Contains(r.Items[i].Body, "declare-") || strings.Contains(r.Items[i].Body, "define-")) {
+			keep[i] = true
+		}
+	}
+	return keep
+}
+
 func buildScript(r *FuncResult, o *Obl) string {
 	var b strings.Builder
 	b.WriteString(preamble)
+	var keep []bool
+	if !noPrune {
+		keep = relevantItems(r, o)
+	}
 	// string literals
 	var lits []string
 	for s, n := range r.StrLits {
@@ -60,7 +218,10 @@ func buildScript(r *FuncResult, o *Obl) string {
 	for s, n := range r.StrLits {
 		fmt.Fprintf(&b, "(assert (= (strlen %s) (_ bv%d 64)))\n", n, len(s))
 	}
-	for _, it := range r.Items[:o.Prefix] {
+	for idx, it := range r.Items[:o.Prefix] {
+		if keep != nil && !keep[idx] {
+			continue
+		}
 		switch it.Kind {
 		case "decl":
 			fmt.Fprintf(&b, "(declare-const %s %s)\n", it.Name, it.Sort)
